@@ -327,6 +327,7 @@ impl Exec {
     }
 
     pub fn line(&mut self, line: &str, o: &mut Out) -> String {
+        tick_gen(line);
         let t: Vec<&str> = line.split(' ').collect();
         match t[0] {
             "new" => {
@@ -695,6 +696,14 @@ impl Exec {
                 if let Ok(Ok(slot)) = &r {
                     self.life[*slot] = Life::CopyPending;
                     self.started_ok = false;
+                } else if self.f.dead {
+                    // power lost inside the final step: once the firmware slot's mark is programmed the image awaits its copy
+                    if let Some((fw, _)) = self.sess {
+                        if fw < self.nslots && self.hdr_words(fw)[4] == 0x4444_4444 {
+                            self.life[fw] = Life::CopyPending;
+                            self.started_ok = false;
+                        }
+                    }
                 }
                 self.twin("check", &res, o);
                 if self.in_variant && !matches!(r, Ok(Ok(_))) && self.variant_prop != "C07" && self.variant_prop != "C04" {
